@@ -170,9 +170,24 @@ def check_property(prop_id, specs, tier, seed, meta):
         print('BLIND %s %s: canary not detected (%s) %s' % (prop_id, r['name'], r['status'], (r.get('detail') or '')[:300]))
 
     tot = dict(paths=0, queries=0, solver_s=0.0)
+    conf = dict(points=0, agree=0, refused_by_precondition=0, disagreements=[])
     for r in results:
         for k in tot:
             tot[k] += r.get('stats', {}).get(k, 0) or 0
+        c = r.get('stats', {}).get('conformance')
+        if c:
+            conf['points'] += c.get('points', 0)
+            conf['agree'] += c.get('agree', 0)
+            conf['refused_by_precondition'] += c.get('refused', 0)
+            for d in c.get('disagree', []):
+                conf['disagreements'].append(dict(obligation=r['name'], **d))
+    for d in conf['disagreements'][:10]:
+        # symbolic verdict `unsat`, but the unshadowed code violates the predicate on an in-domain point:
+        # the encoding (or its real-arithmetic abstraction) does not describe the real code there
+        print('INCONCLUSIVE %s %s: native run disagrees with the unsat verdict at %s %s' % (
+            prop_id, d['obligation'], d.get('inputs', '')[:200], d.get('error', '')))
+    if conf['disagreements'] and code == EXIT_OK:
+        code = EXIT_INCONCLUSIVE
     wall = time.time() - t0
     samples = []
     for r in results:
@@ -202,6 +217,8 @@ def check_property(prop_id, specs, tier, seed, meta):
             known_findings=[k for k, _ in known_hits],
             symbolic_paths=tot['paths'], solver_queries=tot['queries'],
             solver_time_s=round(tot['solver_s'], 2),
+            native_conformance=dict(conf, rule='after an unsat verdict the same predicate is evaluated by the unshadowed modules '
+                                               '(IEEE doubles) on solver-chosen points of the input domain; a disagreement makes the run inconclusive'),
             checker_cmd='bin/vcheck %s --tier %s' % (prop_id, tier),
             trusted_base=meta.get('trusted_base', []),
             samples=samples or [dict(note='no obligation completed')],
